@@ -32,6 +32,10 @@ def kill(node):
     return {"node": node, "kill": node, "line": "<kill %s>" % node, "op": {"op": "kill"}}
 
 
+def restart(node, pid):
+    return {"node": node, "restart": node, "pid": pid, "wipe": False, "line": "<restart %s>" % node, "op": {"op": "restart"}}
+
+
 def cases_for(tier, seed):
     rnd = random.Random(seed)
     cases = []
@@ -53,6 +57,9 @@ def cases_for(tier, seed):
                     cases.append(case("e%d" % n, nodes, pids, [kill(oldest)], seed + n, fpol, "random")); n += 1
                     other = [x for x in nodes if x != oldest][r % 2]
                     cases.append(case("e%d" % n, nodes, pids, [kill(other)], seed + n, fpol, "random")); n += 1
+                # 3b. a node dies and comes back (younger than everybody): it joins the established cluster
+                x = nodes[(r + 1) % len(nodes)]
+                cases.append(case("e%d" % n, nodes, pids, [kill(x), restart(x, 500 + r)], seed + n, fpol, "random")); n += 1
                 # 4. two simultaneous forced elections
                 a, b = nodes[0], nodes[-1]
                 c = case("e%d" % n, nodes, pids, [admin(a), admin(b), force(a), force(b)], seed + n, fpol, "random",
@@ -65,6 +72,7 @@ def cases_for(tier, seed):
 F = lambda n: {"op": "force", "node": n}
 K = lambda n: {"op": "kill", "node": n}
 A = lambda n: {"op": "auth", "node": n}
+R = lambda n, pid: {"op": "restart", "node": n, "pid": pid}
 
 
 def model_scenarios(tier, wd):
@@ -86,6 +94,12 @@ def model_scenarios(tier, wd):
         (ex if n != "n3" else walks).append(elect.Scenario("d3_force_%s" % n, three, p3, [A(n), F(n)], form_sched=f3))
         ex.append(elect.Scenario("d3_kill_%s" % n, three, p3, [K(n)], form_sched=f3))
     ex.append(elect.Scenario("d3_kill_n1_kill_n2", three, p3, [K("n1"), K("n2")], form_sched=f3))
+    # a node (re)joins an established cluster: the secondary comes back younger, the old primary comes back
+    ex.append(elect.Scenario("d2_rejoin_n2", two, p2, [K("n2"), R("n2", 500)], form_sched=f2))
+    ex.append(elect.Scenario("d2_rejoin_n1", two, p2, [K("n1"), R("n1", 500)], form_sched=f2))
+    walks.append(elect.Scenario("d3_rejoin_n3", three, p3, [K("n3"), R("n3", 500)], form_sched=f3))
+    walks.append(elect.Scenario("d3_rejoin_n1", three, p3, [K("n1"), R("n1", 500)], form_sched=f3))
+    walks.append(elect.Scenario("d3_restart_live_n2", three, p3, [R("n2", 500)], form_sched=f3))
     walks.append(elect.Scenario("d3_force_n2_n3", three, p3, [A("n2"), A("n3"), F("n2"), F("n3")], seqprefix=2, form_sched=f3))
     walks.append(elect.Scenario("d3_kill_n1_force_n3", three, p3, [A("n3"), K("n1"), F("n3")], seqprefix=1, form_sched=f3))
     for i, pids in enumerate(itertools.permutations([100, 110])):
